@@ -33,6 +33,7 @@ type c14Cycle struct {
 	Delays    string `json:"delays"` // hook delays for this cycle
 	Mix       bool   `json:"mix"`    // in-flight requests are a mix of valid and invalid
 	LongHoldS int    `json:"long_hold_s"`
+	Resignal  int    `json:"resignal"` // CLI only: extra SIGINTs delivered while the drain is in progress
 }
 
 func c14Plan(o *cli.Opts, cliMode bool) []c14Cycle {
@@ -43,6 +44,7 @@ func c14Plan(o *cli.Opts, cliMode bool) []c14Cycle {
 		add(c14Cycle{Name: "cli/ports-up", Timing: "ports-up"})
 		add(c14Cycle{Name: "cli/inflight-1-afterDecode", Timing: "inflight", K: 1, Delays: "prove.afterDecode=700:200"})
 		add(c14Cycle{Name: "cli/inflight-3-afterProve-mixed", Timing: "inflight", K: 3, Mix: true, Delays: "prove.afterProve=700:300,job.stopRequested=40"})
+		add(c14Cycle{Name: "cli/inflight-2-repeated-sigint", Timing: "inflight", K: 2, Delays: "prove.afterDecode=1500:300", Resignal: 2})
 		add(c14Cycle{Name: "cli/long-hold", Timing: "inflight", K: 2, Delays: fmt.Sprintf("prove.afterDecode=%d", o.Pick(8000, 35000)), LongHoldS: o.Pick(8, 35)})
 		if o.Thorough() {
 			for i := 0; i < 30; i++ {
@@ -461,6 +463,12 @@ func c14CLI(o *cli.Opts, run *evid.Run, ks *keyset) {
 		}
 		stopAt := time.Now()
 		srv.Signal(syscall.SIGINT)
+		for i := 0; i < cy.Resignal; i++ { // an impatient operator: the stop is requested again while the drain is in progress
+			time.Sleep(150 * time.Millisecond)
+			if srv.Signal(syscall.SIGINT) == nil {
+				run.Add("repeated_sigints_delivered", 1)
+			}
+		}
 		wd := 120*time.Second + time.Duration(cy.LongHoldS)*3*time.Second
 		exit, exited := srv.Wait(wd)
 		exitMs := time.Since(stopAt).Milliseconds()
